@@ -260,8 +260,16 @@ func (c *fakeClient) Do(ctx context.Context, q ch.Query) error {
 	decodeBlock(b, q.Input)
 	w.Blocks = append(w.Blocks, b)
 	// the database decides the outcome
-	if sched.Choose("insert", 2, true) == 1 {
+	switch sched.Choose("insert", 3, true) {
+	case 1:
 		b.Err = fmt.Errorf("code: 999, message: injected INSERT failure #%d", b.Seq)
+	case 2:
+		// slow database: nothing comes back until the write timeout of the request context expires
+		if ctx.Done() == nil {
+			panic(sched.HarnessError{Msg: "INSERT context has no deadline"})
+		}
+		sched.Recv(ctx.Done())
+		b.Err = fmt.Errorf("injected slow INSERT #%d: %w", b.Seq, context.DeadlineExceeded)
 	}
 	sched.Op(sched.OpYield)
 	return b.Err
